@@ -152,54 +152,95 @@ func build(spec Spec) (string, error) {
 // running children
 
 type childOut struct {
-	idx      int
-	lines    []rec.Line
-	exitErr  error
-	log      string
-	outPath  string
-	timedOut bool
+	idx     int
+	lines   []rec.Line
+	exitErr error
+	log     string
+	outPath string
+	deaths  []death
 }
 
 func runChildren(spec Spec, bin, tier string, seed int64, n int, watchdog time.Duration, only string, logDir string) []childOut {
 	res := make([]childOut, n)
 	var wg sync.WaitGroup
+	deadline := time.Now().Add(watchdog)
 	for i := 0; i < n; i++ {
 		wg.Add(1)
 		go func(i int) {
 			defer wg.Done()
 			outPath := filepath.Join(logDir, fmt.Sprintf("cases.%d.jsonl", i))
-			logPath := filepath.Join(logDir, fmt.Sprintf("child.%d.log", i))
 			os.Remove(outPath)
-			wd := int(watchdog.Seconds())
-			script := fmt.Sprintf("ulimit -v %d; exec timeout -s QUIT -k 20 %d %s -test.run '%s' -test.timeout 0 -test.v >%s 2>&1",
-				spec.memKB(), wd, shellQuote(bin), spec.Run, shellQuote(logPath))
-			cmd := exec.Command("bash", "-c", script)
-			cmd.Dir = filepath.Join(verifDir, "harness", spec.Engine)
-			env := goEnv()
-			env = append(env,
-				"VERIF_PROP="+spec.ID, "VERIF_TIER="+tier, "VERIF_SEED="+strconv.FormatInt(seed, 10),
-				fmt.Sprintf("VERIF_SHARD=%d/%d", i, n), "VERIF_OUT="+outPath, "VERIF_ONLY="+only,
-				"VERIF_REPO="+repoDir, "VERIF_DIR="+verifDir, "VERIF_LOGDIR="+logDir,
-				"GOTRACEBACK=all",
-			)
-			if spec.Race {
-				env = append(env, fmt.Sprintf("GORACE=halt_on_error=0 log_path=%s", filepath.Join(logDir, fmt.Sprintf("race.%d", i))))
+			co := childOut{idx: i, outPath: outPath}
+			resume := ""
+			for attempt := 0; attempt < 12; attempt++ {
+				logPath := filepath.Join(logDir, fmt.Sprintf("child.%d.%d.log", i, attempt))
+				left := int(time.Until(deadline).Seconds())
+				if left < 5 {
+					break
+				}
+				script := fmt.Sprintf("ulimit -v %d; exec timeout -s QUIT -k 20 %d %s -test.run '%s' -test.timeout 0 -test.v >%s 2>&1",
+					spec.memKB(), left, shellQuote(bin), spec.Run, shellQuote(logPath))
+				cmd := exec.Command("bash", "-c", script)
+				cmd.Dir = filepath.Join(verifDir, "harness", spec.Engine)
+				env := goEnv()
+				env = append(env,
+					"VERIF_PROP="+spec.ID, "VERIF_TIER="+tier, "VERIF_SEED="+strconv.FormatInt(seed, 10),
+					fmt.Sprintf("VERIF_SHARD=%d/%d", i, n), "VERIF_OUT="+outPath, "VERIF_ONLY="+only,
+					"VERIF_REPO="+repoDir, "VERIF_DIR="+verifDir, "VERIF_LOGDIR="+logDir, "VERIF_RESUME_AFTER="+resume,
+					"GOTRACEBACK=all",
+				)
+				if spec.CaseTimeoutS > 0 {
+					env = append(env, fmt.Sprintf("VERIF_CASE_TIMEOUT=%d", spec.CaseTimeoutS))
+				}
+				if spec.Race {
+					env = append(env, fmt.Sprintf("GORACE=halt_on_error=0 log_path=%s", filepath.Join(logDir, fmt.Sprintf("race.%d.%d", i, attempt))))
+				}
+				if len(spec.MaxProcs) > 0 {
+					env = append(env, fmt.Sprintf("GOMAXPROCS=%d", spec.MaxProcs[i%len(spec.MaxProcs)]))
+				}
+				cmd.Env = env
+				err := cmd.Run()
+				co.exitErr = err
+				co.log = logPath
+				lines := readLines(outPath)
+				// find a case left open by this attempt
+				open := ""
+				opened := map[string]bool{}
+				for _, l := range lines {
+					if l.T == "begin" {
+						opened[l.Case] = true
+						open = l.Case
+					} else if l.T == "end" && l.Case == open {
+						open = ""
+					}
+				}
+				co.lines = lines
+				if open == "" {
+					break
+				}
+				// attribute the death of this attempt to the open case, then resume after it
+				code := -1
+				if ee, ok := err.(*exec.ExitError); ok {
+					code = ee.ExitCode()
+				}
+				co.deaths = append(co.deaths, death{caseName: open, log: logPath, exitCode: code, timedOut: code == 124 || code == 137 || code == 97})
+				resume = open
+				if only != "" {
+					break
+				}
 			}
-			if len(spec.MaxProcs) > 0 {
-				env = append(env, fmt.Sprintf("GOMAXPROCS=%d", spec.MaxProcs[i%len(spec.MaxProcs)]))
-			}
-			cmd.Env = env
-			err := cmd.Run()
-			co := childOut{idx: i, exitErr: err, log: logPath, outPath: outPath}
-			if ee, ok := err.(*exec.ExitError); ok && (ee.ExitCode() == 124 || ee.ExitCode() == 137) {
-				co.timedOut = true
-			}
-			co.lines = readLines(outPath)
 			res[i] = co
 		}(i)
 	}
 	wg.Wait()
 	return res
+}
+
+type death struct {
+	caseName string
+	log      string
+	exitCode int
+	timedOut bool
 }
 
 func shellQuote(s string) string { return "'" + strings.ReplaceAll(s, "'", `'\''`) + "'" }
@@ -417,6 +458,7 @@ func aggregate(spec Spec, children []childOut, logDir string) aggT {
 			case "begin":
 				open[l.Case] = l
 				order = append(order, l.Case)
+				_ = order
 			case "note":
 				if len(a.notes) < 50 {
 					a.notes = append(a.notes, l.Note)
@@ -460,22 +502,22 @@ func aggregate(spec Spec, children []childOut, logDir string) aggT {
 			}
 		}
 		// a begun case without an end: the child died (or was killed) while running it
-		for _, name := range order {
-			b, still := open[name]
-			if !still {
-				continue
-			}
+		for _, d := range c.deaths {
+			b := open[d.caseName]
 			a.evals++
-			logTxt := tailFile(c.log, 400000)
-			kind, detail := classifyDeath(logTxt, c.timedOut)
-			if c.timedOut && !spec.hangIsViolation(logTxt) {
-				a.inconclusive++
-				a.inconcWhy["watchdog: "+detail]++
-				continue
+			logTxt := tailFile(d.log, 4000000)
+			kind, detail := classifyDeath(logTxt, d.timedOut)
+			if d.timedOut && !strings.Contains(kind, "panic") && !strings.Contains(kind, "fatal error") {
+				if !spec.hangIsViolation(logTxt) {
+					a.inconclusive++
+					a.inconcWhy["watchdog: "+detail]++
+					continue
+				}
+				kind = "hang:" + spec.HangViolation.FindString(logTxt)
 			}
-			a.viol = append(a.viol, violRec{Case: name, Desc: b.Desc, V: rec.Violation{
+			a.viol = append(a.viol, violRec{Case: d.caseName, Desc: b.Desc, V: rec.Violation{
 				Prop: spec.ID, Sig: "process-death:" + kind,
-				What:    fmt.Sprintf("child process died while running case %s: %s (log %s)", name, detail, c.log),
+				What:    fmt.Sprintf("child process died while running case %s: %s (log %s)", d.caseName, detail, d.log),
 				Witness: map[string]any{"log_tail": lastLines(logTxt, 60)},
 			}})
 		}
@@ -488,6 +530,7 @@ func aggregate(spec Spec, children []childOut, logDir string) aggT {
 	// race reports
 	if spec.Race {
 		files, _ := filepath.Glob(filepath.Join(logDir, "race.*"))
+		_ = files
 		for _, f := range files {
 			b, _ := os.ReadFile(f)
 			for _, blk := range splitRaceBlocks(string(b)) {
